@@ -22,6 +22,20 @@ instance (pw ph w h cw ch : Nat) : Decidable (FitsBox pw ph w h cw ch) := by unf
 instance (pw ph wPix hPix : Nat) : Decidable (NoUpscale pw ph wPix hPix) := by unfold NoUpscale; infer_instance
 instance (pw ph wPix hPix : Nat) : Decidable (AspectKept pw ph wPix hPix) := by unfold AspectKept; infer_instance
 
+/-! ### Pixels
+
+Go's `image/color` conversions to the 16-bit alpha-premultiplied form returned by `RGBA()`. -/
+
+/-- `color.NRGBA{r,g,b,a}.RGBA()`: `c |= c<<8; c *= a; c /= 0xff`, alpha `a |= a<<8` (8-bit inputs). -/
+def nrgbaRGBA (r g b a : Nat) : Nat × Nat × Nat × Nat :=
+  (r * 257 * a / 255, g * 257 * a / 255, b * 257 * a / 255, a * 257)
+
+/-- `color.RGBA{r,g,b,a}.RGBA()` (already premultiplied): `c |= c<<8`. -/
+def rgbaRGBA (r g b a : Nat) : Nat × Nat × Nat × Nat := (r * 257, g * 257, b * 257, a * 257)
+
+/-- A direct colour value `0x02RRGGBB` (flag bit 25 = RGB), by arithmetic. -/
+def directColor (r g b : Nat) : Nat := 2 ^ 25 + r * 65536 + g * 256 + b
+
 /-! ### Placement bookkeeping
 
 A placement is identified by (id, col, row, w, h).  A history is a list of frames; a frame is the
@@ -53,5 +67,24 @@ def mustDelete (prev : List Placement) (f : Frame) : List Placement :=
 def expected : List Placement → List Frame → List (List Placement × List Placement)
   | _, [] => []
   | prev, f :: rest => (mustDelete prev f, mustWrite prev f) :: expected f.placements rest
+
+/-- What an application does with image placements between and at frames: draw an image at a place
+    (`Image.Draw`), clear the screen (`Window.Clear`), render, or force a full refresh. -/
+inductive Op
+  | draw (p : Placement)
+  | clear
+  | render
+  | refresh
+  deriving DecidableEq, Repr
+
+/-- The frame history an op history asks for: the placements drawn since the last clear at each
+    render, and whether the frame is a full refresh (`pending` = a refresh is already pending, as it
+    is after start-up). -/
+def framesOf (pending : Bool) (cur : List Placement) : List Op → List Frame
+  | [] => []
+  | .draw p :: r => framesOf pending (cur ++ [p]) r
+  | .clear :: r => framesOf pending [] r
+  | .render :: r => ⟨cur, pending⟩ :: framesOf false cur r
+  | .refresh :: r => ⟨cur, true⟩ :: framesOf false cur r
 
 end VaxisModel.Spec.Images
